@@ -45,19 +45,30 @@ var verifC13Bucket [16]uint
 func EntryHash64(prefix uint32, key []byte) uint64 { return verifC13Hash[key[0]] }
 func (h *Header) BucketHash(key []byte) uint       { return verifC13Bucket[key[0]] }
 
+// verifC13Eytzinger: the eytzinger (BFS) order of a sorted slice - harness copy of the layout the
+// format defines.
+func verifC13Eytzinger(in, out []Entry, i, k int) int {
+	if k <= len(in) {
+		i = verifC13Eytzinger(in, out, i, 2*k)
+		out[k-1] = in[i]
+		i++
+		i = verifC13Eytzinger(in, out, i, 2*k+1)
+	}
+	return i
+}
+
 func VerifC13CidxDep36() {
 	nb := 1 + verifChoice("buckets", verifParam("maxbuckets", 2))
 	minN := verifParam("minN", 1)
 	n := minN + verifChoice("n", verifParam("N", 3)-minN+1)
 	const mask = uint64(1)<<24 - 1
 	stride := 3 + 36
+	const headerSize, bucketHdrLen = 32, 16 // format constants
 	total := headerSize + nb*bucketHdrLen + (n+nb-1)*stride
 	img := make([]byte, total)
 	var hb [headerSize]byte
 	(&Header{FileSize: 1 << 30, NumBuckets: uint32(nb)}).Store(&hb)
 	copy(img, hb[:])
-	desc := BucketDescriptor{Stride: uint8(stride), OffsetWidth: 36}
-	desc.HashLen = 3
 	off := headerSize + nb*bucketHdrLen
 	var vals [][36]byte
 	key := 0
@@ -81,9 +92,11 @@ func VerifC13CidxDep36() {
 			key++
 		}
 		laid := make([]Entry, cnt)
-		eytzinger(entries, laid, 0, 1)
+		verifC13Eytzinger(entries, laid, 0, 1)
 		for i, e := range laid {
-			desc.marshalEntry(img[off+i*stride:off+(i+1)*stride], e)
+			// entry = 3-byte little-endian hash, then the 36 value bytes
+			img[off+i*stride], img[off+i*stride+1], img[off+i*stride+2] = byte(e.Hash), byte(e.Hash>>8), byte(e.Hash>>16)
+			copy(img[off+i*stride+3:off+(i+1)*stride], e.Value[:])
 		}
 		var bb [bucketHdrLen]byte
 		bh := BucketHeader{HashDomain: uint32(7 + b), NumEntries: uint32(cnt), HashLen: 3, FileOffset: uint64(off)}
